@@ -7,16 +7,16 @@ Import ListNotations.
 Section Run.
 Variable P : params.
 
-Definition Inv (st : state) : Prop := L0 st /\ L1 st /\ L2 st /\ L3 P st /\ L4 P st.
+Definition Inv (st : state) : Prop := L0 st /\ L1 st /\ L2 st /\ (p_unlocked P = false -> L3' P st) /\ L4 P st.
 
 Lemma Inv_init : Inv init.
-Proof. split; [apply L0_init | split; [apply L1_init | split; [apply L2_init | split; [apply L3_init | apply L4_init]]]]. Qed.
+Proof. split; [apply L0_init | split; [apply L1_init | split; [apply L2_init | split; [intros _; apply L3_init | apply L4_init]]]]. Qed.
 
 Lemma Inv_step : forall st c st' l, Inv st -> step P st c = Some (st', l) -> Inv st'.
 Proof.
   intros st c st' l (H0 & H1 & H2 & H3 & H4) Hs.
   split; [eapply L0_step; eauto | split; [eapply L1_step; eauto | split; [eapply L2_step; eauto |
-  split; [eapply L3_step; eauto | eapply L4_step; eauto]]]].
+  split; [intro Hu; eapply L3_step; eauto | eapply L4_step; eauto]]]].
 Qed.
 
 Lemma Inv_exec : forall sched st, Inv st -> Inv (fold_left (exec1 P) sched st).
@@ -87,45 +87,68 @@ Qed.
 
 (* ---- C04_wire *)
 
-(* the full statement: for every schedule, what the client has received plus what is still
-   pending (or was discarded when the connection was closed) is exactly what was produced, and
-   what was produced is the units in order: the responses of the executed requests in order,
-   each contiguous, interim responses only between them *)
+(* For every schedule: what the client has received plus what is still pending is exactly what was
+   produced, with the one contiguous segment cut out that handle_close discarded (empty unless the
+   connection was closed with output pending); what was produced is the units in order: the
+   responses of the executed requests in order, each contiguous, interim responses only between
+   them. *)
 Definition wire_statement (st : state) : Prop :=
   let s := sh st in
-  wire s ++ pending s ++ discarded s = produced s /\
+  wire s ++ pending s = kept s /\
+  discarded s = firstn (length (discarded s)) (skipn (cut s) (produced s)) /\
   produced s = flat_map (utoks P) (units s) /\
   resp_ids (units s) = execs s.
 
 Definition C04_wire_full : Prop := forall sched, wire_statement (run P sched).
 
-Theorem wire_partial : forall sched,
-  wsc (sh (run P sched)) = false -> wire_statement (run P sched).
+Theorem wire_full : p_unlocked P = false -> C04_wire_full.
 Proof.
-  intros sched Hw. destruct (Inv_run sched) as (_ & _ & _ & H3 & _). specialize (H3 Hw).
-  unfold wire_statement, pending. repeat split.
-  - apply (o_wire _ _ H3).
+  intros Hu sched. destruct (Inv_run sched) as (_ & _ & _ & H3 & _). specialize (H3 Hu).
+  unfold wire_statement, pending. destruct (o_wire _ _ H3) as [T1 T2]. repeat split; auto.
   - apply (o_prod _ _ H3).
   - apply (o_ids _ _ H3).
 Qed.
 
+(* while nothing was discarded: wire ++ pending = produced *)
+Corollary wire_no_close : p_unlocked P = false -> forall sched,
+  discarded (sh (run P sched)) = [] ->
+  wire (sh (run P sched)) ++ pending (sh (run P sched)) = produced (sh (run P sched)).
+Proof.
+  intros Hu sched Hd. destruct (wire_full Hu sched) as [T _]. rewrite T. unfold kept. rewrite Hd.
+  simpl. rewrite Nat.add_0_r. apply firstn_skipn.
+Qed.
+
 (* every response but the one being written is complete, while the connection is open *)
-Theorem complete_partial : forall sched,
+Theorem complete_full : p_unlocked P = false -> forall sched,
   let st := run P sched in
-  wsc (sh st) = false -> connected (sh st) = true ->
+  connected (sh st) = true ->
   (forall j, in_task (wpc (wk st j)) = false) -> Forall (complete P) (units (sh st)).
 Proof.
-  intros sched st Hw Hc Hn. destruct (Inv_run sched) as (_ & _ & _ & H3 & _). specialize (H3 Hw).
+  intros Hu sched st Hc Hn. destruct (Inv_run sched) as (_ & _ & _ & H3 & _). specialize (H3 Hu).
   apply (o_done _ _ H3); auto.
 Qed.
 
-Theorem complete_partial_in_task : forall sched j,
+Theorem complete_in_task : p_unlocked P = false -> forall sched j,
   let st := run P sched in
-  wsc (sh st) = false -> connected (sh st) = true -> in_task (wpc (wk st j)) = true ->
+  connected (sh st) = true -> in_task (wpc (wk st j)) = true ->
   exists us n, units (sh st) = us ++ [UResp (w_cur (wk st j)) n] /\ Forall (complete P) us.
 Proof.
-  intros sched j st Hw Hc Hj. destruct (Inv_run sched) as (_ & _ & _ & H3 & _). specialize (H3 Hw).
+  intros Hu sched j st Hc Hj. destruct (Inv_run sched) as (_ & _ & _ & H3 & _). specialize (H3 Hu).
   destruct (o_task _ _ H3 j Hj) as (_ & _ & us & E & F). exists us, (off_now P (wk st j)). split; auto.
+Qed.
+
+(* the output-buffer state is touched only by the holder of outbuf_lock: a thread inside
+   _flush_some holds it (the ownership discipline, at full strength since 8bcf05e) *)
+Theorem flush_under_lock : p_unlocked P = false -> forall sched,
+  let st := run P sched in
+  (forall f, io_fl (ipc (io st)) = Some f -> olock (sh st) = Some TIo) /\
+  (forall j f, wk_fl (wpc (wk st j)) = Some f -> olock (sh st) = Some (TW j)).
+Proof.
+  intros Hu sched st. destruct (Inv_run sched) as (H0 & _ & _ & H3 & _). specialize (H3 Hu). fold st in H0, H3.
+  destruct (l0_o _ H0) as [O1 O2]. split.
+  - intros f Hf. apply O1. destruct (io_fl_touch _ _ Hf) as [X|X]; auto.
+    rewrite (o_unl _ _ H3) in X. discriminate.
+  - intros j f Hf. apply O2. eapply wk_fl_ol; eauto.
 Qed.
 
 (* ---- exactly once at quiescence *)
